@@ -150,6 +150,8 @@ static const Fmt FMTS[] = {
 	/* 29 */ { "#%u %s|%s|%s", SH_USSS, HZ_SSS },          // three strings, the first longer than the line length
 	/* 30 */ { "#%u ", SH_GEN, HZ_GEN },                   // "#%u " followed by a seeded sequence of conversions (make_gen)
 	/* 31 */ { "#%u ld %Lf then %d and %s", SH_ULD, HZ_GEN },
+	/* 32 */ { "#%u short %hd then str %s", SH_UDS, HZ_GEN },
+	/* 33 */ { "#%u uchar %hhu then int %d", SH_UDD, HZ_GEN },
 };
 #define N_FMTS ((int)(sizeof FMTS / sizeof FMTS[0]))
 #define N_BASE_FMTS 23
@@ -193,18 +195,20 @@ static int pick_int(Rng &r)
 #if !defined(__x86_64__)
 #error "the generated-format shape relies on the x86-64 SysV variadic calling convention"
 #endif
-struct Conv { const char *spec; char cls; };
+struct Conv { const char *spec; char cls; int stars; };
 static const Conv CONVS[] = {
-	{ "%d", 'i' }, { "%i", 'i' }, { "%u", 'i' }, { "%x", 'i' }, { "%X", 'i' }, { "%o", 'i' }, { "%5d", 'i' }, { "%-6d|", 'i' }, { "%05d", 'i' },
-	{ "%+d", 'i' }, { "% d", 'i' }, { "%#x", 'i' }, { "%.3d", 'i' },
-	{ "%hd", 'i' }, { "%hu", 'i' }, { "%hhd", 'i' }, { "%hhu", 'i' }, { "%hx", 'i' },
-	{ "%c", 'c' }, { "%3c", 'c' }, { "%-3c|", 'c' },
-	{ "%ld", 'l' }, { "%lu", 'l' }, { "%lx", 'l' }, { "%li", 'l' }, { "%12ld", 'l' },
-	{ "%lld", 'l' }, { "%llu", 'l' }, { "%llx", 'l' }, { "%#llo", 'l' },
-	{ "%zu", 'l' }, { "%zd", 'l' }, { "%td", 'l' }, { "%jd", 'l' }, { "%ju", 'l' },
-	{ "%f", 'f' }, { "%e", 'f' }, { "%g", 'f' }, { "%.2f", 'f' }, { "%10.3e", 'f' }, { "%G", 'f' }, { "%a", 'f' },
-	{ "%s", 's' }, { "%10s", 's' }, { "%-10s|", 's' }, { "%.3s", '3' }, { "%.*s", 'S' }, { "%*d", 'W' },
-	{ "%p", 'l' }, { "%%", '%' },
+	{ "%d", 'i', 0 }, { "%i", 'i', 0 }, { "%u", 'i', 0 }, { "%x", 'i', 0 }, { "%X", 'i', 0 }, { "%o", 'i', 0 }, { "%5d", 'i', 0 }, { "%-6d|", 'i', 0 },
+	{ "%05d", 'i', 0 }, { "%+d", 'i', 0 }, { "% d", 'i', 0 }, { "%#x", 'i', 0 }, { "%.3d", 'i', 0 }, { "%-+8.3d|", 'i', 0 }, { "% 5i", 'i', 0 }, { "%'d", 'i', 0 },
+	{ "%hd", 'i', 0 }, { "%hu", 'i', 0 }, { "%hhd", 'i', 0 }, { "%hhu", 'i', 0 }, { "%hx", 'i', 0 }, { "%hhX", 'i', 0 }, { "%hi", 'i', 0 }, { "%#ho", 'i', 0 },
+	{ "%c", 'c', 0 }, { "%3c", 'c', 0 }, { "%-3c|", 'c', 0 }, { "%*c", 'c', 1 },
+	{ "%ld", 'l', 0 }, { "%lu", 'l', 0 }, { "%lx", 'l', 0 }, { "%li", 'l', 0 }, { "%12ld", 'l', 0 }, { "%lo", 'l', 0 }, { "%lX", 'l', 0 }, { "%-*ld|", 'l', 1 },
+	{ "%lld", 'l', 0 }, { "%llu", 'l', 0 }, { "%llx", 'l', 0 }, { "%#llo", 'l', 0 }, { "%lli", 'l', 0 }, { "%llX", 'l', 0 }, { "%+lld", 'l', 0 },
+	{ "%zu", 'l', 0 }, { "%zd", 'l', 0 }, { "%zx", 'l', 0 }, { "%zi", 'l', 0 }, { "%td", 'l', 0 }, { "%jd", 'l', 0 }, { "%ju", 'l', 0 }, { "%jx", 'l', 0 },
+	{ "%f", 'f', 0 }, { "%e", 'f', 0 }, { "%g", 'f', 0 }, { "%.2f", 'f', 0 }, { "%10.3e", 'f', 0 }, { "%G", 'f', 0 }, { "%a", 'f', 0 }, { "%F", 'f', 0 }, { "%E", 'f', 0 },
+	{ "%08.3f", 'f', 0 }, { "%+.2e", 'f', 0 }, { "%.*f", 'f', 1 }, { "%*.*f", 'f', 2 }, { "%.0f", 'f', 0 }, { "%#g", 'f', 0 },
+	{ "%s", 's', 0 }, { "%10s", 's', 0 }, { "%-10s|", 's', 0 }, { "%.3s", '3', 0 }, { "%.*s", 's', 1 }, { "%*s", 's', 1 }, { "%-*s|", 's', 1 },
+	{ "%*d", 'i', 1 }, { "%-*d|", 'i', 1 }, { "%.*d", 'i', 1 }, { "%0*d", 'i', 1 },
+	{ "%p", 'l', 0 }, { "%%", '%', 0 },
 };
 #define N_CONVS ((int)(sizeof CONVS / sizeof CONVS[0]))
 static void make_gen(Rng &r, Args &a)
@@ -216,21 +220,22 @@ static void make_gen(Rng &r, Args &a)
 	for (int k = 0; k < n; k++) {
 		for (int j = (int)r.below(4); j > 0; j--) a.genfmt.push_back(lit[r.below(sizeof lit - 1)]);
 		const Conv &c = CONVS[r.below((uint64_t)N_CONVS)];
-		int need_g = c.cls == 'f' || c.cls == '%' ? 0 : (c.cls == 'S' || c.cls == 'W') ? 2 : 1;
+		int need_g = c.stars + (c.cls == 'f' || c.cls == '%' ? 0 : 1);
 		if (ng + need_g > 6 || (c.cls == 'f' && nd >= 6)) continue;
 		a.genfmt += c.spec;
+		// "*": an int argument for the width (may be negative: left-adjust) or the precision, stored as an int
+		for (const char *q = c.spec; *q; q++)
+			if (*q == '*') { bool prec = q > c.spec && q[-1] == '.'; a.G[ng++] = (uint64_t)(int64_t)(prec ? r.range(0, 8) : r.range(-12, 12)); a.genser += 4; }
 		switch (c.cls) {
 		case 'i': a.G[ng++] = (uint64_t)(int64_t)pick_int(r); a.genser += 4; break;
 		case 'c': a.G[ng++] = (uint64_t)"aZ09 .#"[r.below(7)]; a.genser += 1; break;
 		case 'l': a.G[ng++] = r.chance(1, 2) ? (uint64_t)(int64_t)pick_int(r) : r.u64(); a.genser += 8; break;
-		case 'f': { static const double ds[] = { 0.0, 1.0, -1.5, 3.14159265, 1e-7, 123456.789, -99999.5, 0.1 }; a.D[nd++] = ds[r.below(8)]; a.genser += 8; break; }
+		case 'f': { static const double ds[] = { 0.0, 1.0, -1.5, 3.14159265, 1e-7, 123456.789, -99999.5, 0.1, 1e15, -2.5e-300 }; a.D[nd++] = ds[r.below(10)]; a.genser += 8; break; }
 		case 's': case '3': {
 			a.gs[ng] = make_str(r, (size_t)r.below(21)); a.gstr[ng] = true;
 			a.genser += (c.cls == '3' ? std::min<size_t>(3, a.gs[ng].size()) : a.gs[ng].size()) + 1;
 			ng++;
 			break; }
-		case 'S': a.G[ng++] = (uint64_t)r.below(12); a.gs[ng] = make_str(r, (size_t)r.below(21)); a.gstr[ng] = true; a.genser += 4 + a.gs[ng].size() + 1; ng++; break;
-		case 'W': a.G[ng++] = (uint64_t)(int64_t)r.range(-12, 12); a.G[ng++] = (uint64_t)(int64_t)pick_int(r); a.genser += 8; break;
 		default: break;
 		}
 	}
@@ -384,7 +389,7 @@ static void gen_logs(Rng &r, Plan &p, int n, const bool hz[HZ_N])
 		int fid;
 		uint32_t c = (uint32_t)r.below(100);
 		if (c < 70 || (c < 82 && !hz[HZ_GEN])) fid = (int)r.below(N_BASE_FMTS);
-		else if (c < 82) fid = r.chance(1, 12) ? 31 : 30;
+		else if (c < 82) fid = r.chance(1, 6) ? 31 + (int)r.below(3) : 30;
 		else {
 			fid = N_BASE_FMTS + (int)r.below((uint64_t)(N_FMTS - N_BASE_FMTS));
 			if (!hz[FMTS[fid].hazard]) fid = (int)r.below(N_BASE_FMTS);
